@@ -24,6 +24,46 @@ def _pos(n):
     return (n.lineno, n.col_offset)
 
 
+def _only_through_preprocess(f, obj):
+    """Every load of parameter `obj` in f is the sole argument of
+    self.preprocess_object(..) (at least one)."""
+    parents = f.module.parents
+    good = 0
+    for x in ast.walk(f.node):
+        if isinstance(x, ast.Name) and x.id == obj:
+            if isinstance(x.ctx, ast.Store):
+                return False
+            par = parents[x]
+            if isinstance(par, ast.Call) and dotted(par.func) == \
+                    "self.preprocess_object" and par.args == [x]:
+                good += 1
+            else:
+                return False
+    return good >= 1
+
+
+def _delegated_to_guarding_helper(ctx, cls, call, arg):
+    """`arg` is handed to a PRIVATE method of the same class (self._h(..))
+    whose corresponding parameter only enters through preprocess_object."""
+    if not (isinstance(call, ast.Call) and isinstance(call.func, ast.Attribute)
+            and dotted(call.func.value) == "self"
+            and call.func.attr.startswith("_")):
+        return False
+    h = cls.methods.get(call.func.attr) or ctx.p.find_method(
+        cls, call.func.attr)
+    if h is None:
+        return False
+    hp = [p for p in h.params if p != "self"]
+    name = None
+    for i, a in enumerate(call.args):
+        if a is arg and i < len(hp):
+            name = hp[i]
+    for k in call.keywords:
+        if k.value is arg and k.arg in hp:
+            name = k.arg
+    return name is not None and _only_through_preprocess(h, name)
+
+
 def rule_dr1(ctx, min_methods=13):
     r = ctx.r
     r.rule("DR1", "every public draw_* method uses its object parameter "
@@ -127,6 +167,8 @@ def rule_dr1(ctx, min_methods=13):
                 par = parents[x]
                 if isinstance(par, ast.Call) and dotted(par.func) == \
                         "self.preprocess_object" and par.args == [x]:
+                    good += 1
+                elif _delegated_to_guarding_helper(ctx, c, par, x):
                     good += 1
                 else:
                     bad.append(x)
